@@ -28,5 +28,26 @@ for d in ${@:-$(ls -d seeded/C*-* | sort)}; do
   chk=$(PYTHONPATH="$W/src" ZORG_SRC="$W/src" PYVC_NO_CACHE=1 timeout 3000 ./check "$pid" --tier quick 2>/dev/null | grep -c "^VIOLATION")
   echo "| $id | exit $dc | exit $dp | $suite | $chk VIOLATION line(s) |" >> "$out.tmp"
 done
-mv "$out.tmp" "$out"
+if [ $# -gt 0 ] && [ -f "$out" ]; then
+  # partial run: replace / add only the rows of the given seeds
+  python3 - "$out" "$out.tmp" <<'PY'
+import sys, re
+old, new = open(sys.argv[1]).read().split("\n"), open(sys.argv[2]).read().split("\n")
+rows = {}
+order = []
+for ln in old + new:
+    m = re.match(r"\| (C[0-9]+-[0-9]+) \|", ln)
+    if m:
+        if m.group(1) not in rows:
+            order.append(m.group(1))
+        rows[m.group(1)] = ln
+head = [ln for ln in new if not re.match(r"\| C[0-9]+-[0-9]+ \|", ln) and ln.strip()]
+head[1] = head[1].replace("Each row was", "Rows are re-run individually; the last (partial) run was")
+key = lambda i: (int(i[1:3]), int(i.split("-")[1]))
+open(sys.argv[1], "w").write("\n\n".join(head[:2]) + "\n\n" + "\n".join(head[2:]) + "\n" + "\n".join(rows[i] for i in sorted(order, key=key)) + "\n")
+PY
+  rm -f "$out.tmp"
+else
+  mv "$out.tmp" "$out"
+fi
 cat "$out"
